@@ -1723,7 +1723,11 @@ impl Monitor for Ms {
         "cwv-app"
     }
     fn histories(&self, tier: Tier) -> u64 {
-        tier.pick(160, 12_000)
+        match self.prop {
+            "C03" => tier.pick(160, 48_000),
+            "C05" => tier.pick(160, 24_000),
+            _ => tier.pick(160, 36_000),
+        }
     }
     fn mandatory(&self) -> Vec<&'static str> {
         match self.prop {
